@@ -189,6 +189,13 @@ func (d *dumper) value(v reflect.Value, owner string) {
 func (d *dumper) node(v reflect.Value) {
 	t := v.Type()
 	name := t.Name()
+	if d.opt.StripParens && name == "ParenExpr" {
+		// both printers print ((x)) as (x)
+		if inner, ok := v.FieldByName("X").Interface().(*ast.ParenExpr); ok && inner != nil {
+			d.node(reflect.ValueOf(inner).Elem())
+			return
+		}
+	}
 	d.atom("(")
 	d.atom(name)
 	if name == "Ident" {
